@@ -23,8 +23,7 @@ FAMILIES = {
     "xfer_initiate": (40, "bounded", "filename length limited by the 40-byte buffer"),
     "xfer_resume": (12, "complete", None),
 }
-QUICK = ["logon_proof_server", "reconnect_challenge_server", "reconnect_proof_server", "reconnect_proof_client", "realm_list_client",
-         "xfer_accept", "xfer_cancel", "xfer_resume", "xfer_data"]
+QUICK = ["reconnect_proof_server", "reconnect_proof_client", "realm_list_client", "xfer_accept", "xfer_cancel", "xfer_resume"]
 
 
 def batches(scratch, tier="thorough"):
@@ -69,7 +68,7 @@ def check(tier, seed):
         run.assumptions += ["the version-N value is obtained by decoding symbolic bytes with version N's own reader (values without an encoding inside the buffer bound are not exercised)",
                             "families with strings/vectors are bounded by the buffer size (reported as bounded, not as proved)",
                             "expect_*_message_protocol helpers and the tokio/async-std variants are not under contract",
-                            "excluded for resources (no verdict within the time budget on the unchanged tree): %s" % sorted(_excluded())]
+                            "excluded for resources - bytes-side contracts that gave no verdict within 420-2400 s on the unchanged tree, or bounded families that were not measured: %s" % sorted(_excluded())]
         run.extra["families"] = {k: dict(buffer=v[0], kind=v[1]) for k, v in FAMILIES.items()}
         run.samples = ["family::vN: forall bytes b. Vn::read(b)=Ok(x) ==> to_vN(from_vN(x))==x, write_protocol(from_vN(x),N) bytes == x.write() bytes, read_protocol(b,N) lowers to x and consumes the same"]
         return run.finish(vlib.make_kani_replay_hook(run, scratch, bs))
